@@ -8,6 +8,7 @@ Definition outcome_eqb (o1 o2 : outcome) : bool :=
   match o1, o2 with
   | Ok t1 k1, Ok t2 k2 => tree_eqb t1 t2 && (k1 =? k2)
   | Err k1 e1, Err k2 e2 => (k1 =? k2) && set_eqb e1 e2
+  | ErrNoAction, ErrNoAction => true
   | Panic s1, Panic s2 => s1 =? s2
   | OutOfFuel, OutOfFuel => true
   | _, _ => false
